@@ -479,6 +479,56 @@ def place_watch(variant: str) -> dict[str, str]:
     return {"ErrorsWatch.v": text}
 
 
+def code_table() -> list[tuple[str, str | None, bool]]:
+    """(code, sub_code_of.code, default_enabled) of every module-level `X = ErrorCode(...)` of mypy/errorcodes.py, in
+    source order (two objects may share a code string: CALL_ARG / CALL_ARG_MISC).  Fail-closed on any other call shape."""
+    tree = ast.parse(vlib.read_repo("mypy/errorcodes.py"))
+    byvar: dict[str, str] = {}
+    out: list[tuple[str, str | None, bool]] = []
+    for n in tree.body:
+        tgt = val = None
+        if isinstance(n, ast.AnnAssign) and isinstance(n.target, ast.Name):
+            tgt, val = n.target.id, n.value
+        elif isinstance(n, ast.Assign) and len(n.targets) == 1 and isinstance(n.targets[0], ast.Name):
+            tgt, val = n.targets[0].id, n.value
+        if not (tgt and isinstance(val, ast.Call) and isinstance(val.func, ast.Name) and val.func.id == "ErrorCode"):
+            continue
+        args = list(val.args)
+        kws = {k.arg: k.value for k in val.keywords}
+        if len(args) < 3 or len(args) > 5 or not all(isinstance(a, ast.Constant) and isinstance(a.value, str) for a in args[:3]):
+            raise fail(val, "ErrorCode(...): unsupported arguments")
+        dflt_e = args[3] if len(args) > 3 else kws.pop("default_enabled", None)
+        sub_e = args[4] if len(args) > 4 else kws.pop("sub_code_of", None)
+        if kws:
+            raise fail(val, "ErrorCode(...): unsupported keywords")
+        if dflt_e is None:
+            dflt = True
+        elif isinstance(dflt_e, ast.Constant) and isinstance(dflt_e.value, bool):
+            dflt = dflt_e.value
+        else:
+            raise fail(val, "default_enabled is not a literal")
+        sub = None
+        if sub_e is not None and not (isinstance(sub_e, ast.Constant) and sub_e.value is None):
+            if not (isinstance(sub_e, ast.Name) and sub_e.id in byvar):
+                raise fail(val, "sub_code_of is not a previously defined ErrorCode variable")
+            sub = byvar[sub_e.id]
+        byvar[tgt] = args[0].value
+        out.append((args[0].value, sub, dflt))
+    if len(out) < 20:
+        raise Unsupported("errorcodes.py: too few ErrorCode definitions found")
+    return out
+
+
+def gen_codes() -> str:
+    rows = []
+    for name, sub, dflt in code_table():
+        rows.append(f"  mk_ecode {coq_string(name)} {'(Some ' + coq_string(sub) + ')' if sub else 'None'} {'true' if dflt else 'false'} None")
+    return (HEADER.format(src="mypy/errorcodes.py") +
+            "\n(* every module-level ErrorCode(...) of mypy/errorcodes.py: code, sub_code_of.code, default_enabled\n"
+            "   (corig, the original_error_codes entry of mypy/errors.py, is not part of this table) *)\n"
+            "Definition code_table : list ecode := [\n" + ";\n".join(rows) + "\n].\n")
+
+
 def generate() -> dict[str, str]:
     util, helpers = gen_util()
     text = "\n\n".join([
@@ -491,6 +541,9 @@ def generate() -> dict[str, str]:
     ]) + "\n"
     vlib.write_if_changed(os.path.join(vlib.GEN, "ErrorsCore.v"), text)
     files = {"ErrorsCore.v": text}
+    codes_text = gen_codes()
+    vlib.write_if_changed(os.path.join(vlib.GEN, "ErrorCodes.v"), codes_text)
+    files["ErrorCodes.v"] = codes_text
     files.update(place_exit(exit_variant()))
     files.update(place_watch(watch_variant()))
     return files
